@@ -19,8 +19,10 @@ EXTENDS Broker, Json, IOUtils
 
 Traces == JsonDeserialize(IOEnv.QSV_TRACE)
 
-VARIABLES tid, l, bad, lhist, lhold
-tvars == << vars, tid, l, bad, lhist, lhold >>
+VARIABLES tid, l, bad, lhist, lhold,
+          sync    \* FALSE once the execution has diverged from the specification: the unlogged variables (positions,
+                  \* ghost ledgers) can then no longer be trusted, and only relations between LOGGED figures are judged
+tvars == << vars, tid, l, bad, lhist, lhold, sync >>
 
 Tr == Traces[tid]
 
@@ -72,13 +74,15 @@ Clauses(e, n) ==
            ELSE << OwnerOf(c.op), "outcome" >>,
            e.err = expErr >>,
         \* account totals: obtainable, and the sum of the per-portfolio figures the getters report
-        << << "C01", "account-equity" >>, e.post.acctEq = SumOver(ps, e.post.teq) >>,
-        << << "C01", "account-market-value" >>, e.post.acctMv = SumOver(ps, e.post.tmv) >>,
+        \* (each figure is a float rounded to a mil separately: allow one mil per summand)
+        << << "C01", "account-equity" >>, Abs(e.post.acctEq - SumOver(ps, e.post.teq)) <= Cardinality(ps) >>,
+        << << "C01", "account-market-value" >>, Abs(e.post.acctMv - SumOver(ps, e.post.tmv)) <= Cardinality(ps) >>,
         << << "C01", "other-currency" >>, e.post.other = 0 >>,
         << << "C15", "getter-errtype" >>, e.post.unk = UnknownIdErr >>,
         \* equity = cash + market value; market value = sum over the holdings report
-        << << "C02", "equity" >>, \A p \in ps : e.post.teq[p] = cash'[p] + e.post.tmv[p] >>,
-        << << "C02", "mv-total" >>, \A p \in ps : e.post.tmv[p] = SumOver(DOMAIN lhold'[p], [a \in DOMAIN lhold'[p] |-> lhold'[p][a].mv]) >>,
+        << << "C02", "equity" >>, \A p \in ps : Abs(e.post.teq[p] - (cash'[p] + e.post.tmv[p])) <= 1 >>,
+        << << "C02", "mv-total" >>, \A p \in ps :
+             Abs(e.post.tmv[p] - SumOver(DOMAIN lhold'[p], [a \in DOMAIN lhold'[p] |-> lhold'[p][a].mv])) <= Cardinality(DOMAIN lhold'[p]) >>,
         << << "MODEL", "clocks" >>, now' = Pick(n, "now", now) /\ clk' = Pick(n, "clk", clk) >> }
       \* a refused request: every observable the property lists is exactly as the PREVIOUS event logged it
       Refused == {
@@ -138,7 +142,7 @@ Clauses(e, n) ==
              cash'[p] = ledger'[p].in - ledger'[p].out - ledger'[p].cost >>,
         << << "C01", "zero-sum" >>, master' + SumOver(ps, cash') +
              SumOver(ps \cap DOMAIN ledger', [p \in ps \cap DOMAIN ledger' |-> ledger'[p].cost]) = ext'.in - ext'.out >> }
-  IN  Common \cup (IF rej THEN Refused ELSE Accepted)
+  IN  [common |-> Common, specific |-> IF rej THEN Refused ELSE Accepted]
 
 Step ==
   /\ l <= Len(Tr.ev)
@@ -155,17 +159,23 @@ Step ==
          /\ ledger' = Pick(n, "ledger", ledger) /\ ext' = Pick(n, "ext", ext)
          /\ net' = Pick(n, "net", net) /\ seen' = Pick(n, "seen", seen)
          /\ oidNext' = Pick(n, "oidNext", oidNext) /\ done' = Pick(n, "done", done)
-         /\ bad' = bad \cup { << l, x[1][1], x[1][2] >> : x \in { y \in Clauses(e, n) : ~y[2] } }
+         /\ LET cl    == Clauses(e, n)
+                 fc    == { y \in cl.common : ~y[2] }
+                 fs    == IF sync THEN { y \in cl.specific : ~y[2] } ELSE {}
+                 outc  == { y \in cl.common : y[1][2] = "outcome" /\ ~y[2] }
+             IN  /\ bad' = bad \cup { << l, x[1][1], x[1][2] >> : x \in (IF sync THEN fc ELSE fc \ outc) \cup fs }
+                 \* judged up to and including the first divergence; afterwards only the relations between logged figures
+                 /\ sync' = (sync /\ fs = {} /\ outc = {})
 
 Finish ==
   /\ l = Len(Tr.ev) + 1
   /\ PrintT(<< "VERDICT", tid, Tr.id, bad >>)
   /\ l' = l + 1
-  /\ UNCHANGED << vars, tid, bad, lhist, lhold >>
+  /\ UNCHANGED << vars, tid, bad, lhist, lhold, sync >>
 
 TraceInit ==
   /\ tid \in 1..Len(Traces)
-  /\ l = 1 /\ bad = {} /\ lhist = << >> /\ lhold = << >>
+  /\ l = 1 /\ bad = {} /\ lhist = << >> /\ lhold = << >> /\ sync = TRUE
   /\ InitWith(Tr.t0, Tr.quote, Tr.fee)
 
 TraceNext == Step \/ Finish
